@@ -91,4 +91,33 @@ let () = iter_lines (fun line ->
           (if dtp_usetmpbuf w h s num denom then "tmp" else "direct"))
       end;
       print_endline (Buffer.contents b)
+  | ["rawfp"; w; h; sv; sfi] ->
+      (* what one raw-data decompression does: output size, scaled block size, number of calls, and per component the blocks,
+         the columns and the rows written by each call -- all from the generated library statements (model/RawData.v) *)
+      let ios = int_of_string in
+      let w = zi (ios w) and h = zi (ios h) and s = zi (ios sv) in
+      let (num, denom) = List.nth sf_tbl (ios sfi) in
+      let nc = if ios sv = 3 then 1 else 3 in
+      let d = ljg_min_dct num denom in
+      let outh = ljg_out_h h num denom in
+      let calls = match dtp_protocol outh (comp_vsamp0 s) d with RawOk c -> dec_of_z c | RawBufferSize -> "buffer-size" | RawTooMuchData -> "too-much-data" | RawFuel -> "fuel" in
+      let b = Buffer.create 256 in
+      Buffer.add_string b (Printf.sprintf "rawfp %s %s %s %s" (dec_of_z (ljg_out_w w num denom)) (dec_of_z outh) (dec_of_z d) calls);
+      let total = ljg_imcu_rows h s in
+      for i = 0 to nc - 1 do
+        let wib = ljg_wib (zi i) w s and hib = ljg_hib (zi i) h s and vs = lj_vs (zi i) s in
+        Buffer.add_string b (Printf.sprintf " | %s %s %d" (dec_of_z wib) (dec_of_z hib) (int_of_z wib * int_of_z d));
+        for k = 0 to int_of_z total - 1 do
+          Buffer.add_string b (Printf.sprintf "%s%s" (if k = 0 then " " else ",") (dec_of_z (ljg_rows_in_call (zi k) total hib vs d)))
+        done
+      done;
+      print_endline (Buffer.contents b)
+  | ["edge"; i; w; h; sv; row] ->
+      let ios = int_of_string in
+      let i = zi (ios i) and w = zi (ios w) and h = zi (ios h) and s = zi (ios sv) and row = zi (ios row) in
+      let vs = lj_vs i s in
+      let ok = cfp_iteration_ok (cfp_plane_w i w s) (cfp_plane_h i h s) (cfp_iw (lj_wib i w s)) (cfp_ih (lj_hib i h s)) (cfp_th vs)
+                 (cfp_crow row vs (comp_vsamp0 s)) in
+      let cp = match cfp_protocol h (comp_vsamp0 s) with RawOk c -> dec_of_z c | _ -> "error" in
+      Printf.printf "edge %s calls=%s\n" (if ok then "true" else "false") cp
   | _ -> print_endline "?")
